@@ -24,7 +24,7 @@ PROBES = ["burst_with_placeholder", "burst_after_complement", "query_raised", "a
 
 GFA_Q = ["str", "names", "lines", "validate", "line", "segment", "try_get_line", "select", "components",
          "segment_component", "counts", "linear_paths", "linear_path", "is_cut_link", "is_cut_segment",
-         "headers", "collections", "fragments_for_external", "external_names", "info"]
+         "headers", "collections", "fragments_for_external", "external_names", "info", "header_array_ops"]
 LINE_Q = ["str", "repr", "to_list", "tagnames", "get_all", "get_datatype", "validate", "validate_fields", "clone",
           "eq", "diff", "field_to_s", "refstr", "all_references", "to_str_nocomment", "positional_fieldnames",
           "try_get", "is_connected", "version"]
@@ -52,8 +52,26 @@ def gen(streams, tier, i):
                 scn["ops"].insert(qx.randint(1, len(scn["ops"])),
                                   {"op": "add", "line": "\t".join(["L", a, qx.choice("+-"), b, qx.choice("+-"),
                                                                     G2.gen_cigar(qx, "allsn", 9, 9)]), "as": "str"})
-    qr = streams.get("queries")
     ops = scn["ops"]
+    if qx.random() < 0.3:
+        # a header tag defined on several H lines
+        t = qx.choice(["zr:i:%d", "zr:Z:v%d", "zr:J:[%d]"])
+        for n_ in range(qx.randint(2, 3)):
+            ops.insert(qx.randint(1, len(ops)), {"op": "add", "line": "H\t" + t % n_, "as": "str"})
+    if qx.random() < 0.3:
+        # a line made unwritable by a legal call (set_datatype is documented to possibly invalidate the content):
+        # read-only calls on it may raise, they still change nothing
+        ids = sorted(set(o["line"].split("\t")[1] for o in ops if o["op"] == "add" and o["line"].split("\t")[0] in ("S", "E", "O")
+                         and o["line"].split("\t")[1] != "*"))
+        if ids:
+            nm = qx.choice(ids)
+            pos = qx.randint(2, len(ops))
+            ops.insert(pos, {"op": "set_tag", "id": nm, "tag": "zu", "value": "abc"})
+            ops.insert(pos + 1, {"op": "set_datatype", "id": nm, "tag": "zu", "dtype": qx.choice(["i", "H", "J"])})
+            ops.insert(pos + 2, {"op": "burst", "calls": [
+                {"on": "named", "name": nm, "q": q_, "i": 0, "j": 1, "arg": "A"}
+                for q_ in ("str_wo_seq", "str", "to_list", "validate", "clone", "str_wo_seq", "get_all")]})
+    qr = streams.get("queries")
     nb = qr.randint(2, 6 if tier == "quick" else 10)
     for _ in range(nb):
         pos = qr.randint(1, len(ops))
@@ -100,6 +118,18 @@ def make_call(g, c):
     """-> (callable, [values whose str must not change]) or None"""
     on, q, i, j, arg = c["on"], c["q"], c["i"], c["j"], c["arg"]
     lines = ob.listed_lines(g)
+    if on == "named":
+        # a given line (by identifier): line queries, and the segment writer without sequence
+        l = g.line(c["name"])
+        if l is None:
+            return None
+        fields = list(l.positional_fieldnames) + list(l.tagnames)
+        f = {
+            "str": lambda: str(l), "to_list": l.to_list, "validate": l.validate, "clone": lambda: str(l.clone()),
+            "get_all": lambda: [canon(l.get(x)) for x in fields],
+            "str_wo_seq": (lambda: l.__str__(without_sequence=True)) if l.record_type == "S" else (lambda: str(l)),
+        }.get(q)
+        return (f, [l]) if f else None
     if on == "gfa":
         seg = pick(g.segments, i)
         lk = pick(g.dovetails, i)
@@ -121,6 +151,10 @@ def make_call(g, c):
             "fragments_for_external": lambda: g.fragments_for_external(arg),
             "external_names": lambda: g.external_names,
             "info": lambda: g.info(True) if hasattr(g, "info") else None,
+            # operators on a multi-valued header tag as handed out by a read
+            "header_array_ops": lambda: [(v + [list(v)[0]], v + v, list(v), v == v)
+                                         for v in (g.header.get(t) for t in g.header.tagnames)
+                                         if isinstance(v, gfapy.FieldArray) and len(list(v)) > 0],
         }.get(q)
         return (f, []) if f else None
     if on == "line":
